@@ -47,10 +47,17 @@ func c06Panic(kind int) {
 	case 8: // an error interface holding a nil pointer whose Error method dereferences it
 		var e *c06PtrErr
 		panic(error(e))
+	case 9: // an error object of the module system itself (not a panic report)
+		panic(c06Other.NewErrorMessage("inner", context.Canceled))
+	case 10: // the error of a nested worker passed on as a panic
+		panic(c06Other.NewInfoMessage("something happened"))
 	}
 }
 
-const c06Kinds = 9
+// another module, whose error objects are used as panic values
+var c06Other = &Module{Name: "other"}
+
+const c06Kinds = 11
 
 type c06PtrErr struct{ msg string }
 
